@@ -36,7 +36,13 @@ func genValue(L int) (wire, core string) {
 // header in canonical / compact / odd-case spelling, or a repetition of the previous name.
 func genExtHeader(L int, prev string) gHeader {
 	var h gHeader
-	switch rt.Choice("hname", 5) {
+	switch rt.Choice("hname", 6) {
+	case 5:
+		// a header the proxy reads (Expires) but does not own: any spelling of the number must survive
+		h.name = "Expires"
+		h.value = rt.Str("expires", "[0-9+]", 1, L+1)
+		h.line = h.name + ": " + h.value + "\r\n"
+		return h
 	case 0:
 		h.name = "X-" + rt.Str("hn", clsToken, 1, L)
 	case 1:
@@ -150,7 +156,11 @@ func VC01_Relay() {
 		text += h.line
 	}
 	text += spell("Content-Length", rt.Choice("clspell", 4)) + ": " + itoa(len(body)) + "\r\n\r\n" + body
-	ok := w.deliver(text, "10.0.2.2", 5060, true)
+	src := "10.0.2.2"
+	if path == 3 && rt.Bool("from-backend") {
+		src = "10.0.1.1" // the response comes from the backend's configured address (dialog pinning path)
+	}
+	ok := w.deliver(text, src, 5060, true)
 	rt.Assert(ok, "well-formed message decodes")
 	if !ok {
 		return
